@@ -107,6 +107,9 @@ func ruleC01Head(c *Ctx) {
 			} else {
 				c.Bad(rule, FnName(f)+" | lock not released between read and write", c.P.InstrPos(ws[0].Site), "rmLock released between the read and the write", nil)
 			}
+			// the old content of the block is always read first: a map entry 0 means "owner not
+			// known yet", not "never written"
+			c.Guard(rule, f, wr, "write merged block", nil, Need{Desc: "surrounding block read successfully", Edge: successEdgesOfCall(f, rd[0])})
 			R := NewRenderer(f)
 			if callRender(R, wr[0]) == fDD+"fullWriteAt($0,makeslice($0.sectorSize),(+$0.sectorSize*div(+$2,+$0.sectorSize)))" || strings.HasPrefix(callRender(R, wr[0]), fDD+"fullWriteAt($0,makeslice($0.sectorSize),") {
 				c.OK(rule, FnName(f)+" | writes back the merged block", c.P.InstrPos(wr[0]), "the block read is the block written", false)
@@ -834,21 +837,39 @@ func capturedUserSnapIndex(cl *ssa.Function, U ssa.Value) (par *ssa.Function, do
 // separateLoopDoneEdge: if phi p is computed by a range loop of its own (its header block is p's
 // block), return the predicate for the loop's exhaustion edge.
 func separateLoopDoneEdge(fn *ssa.Function, R *Renderer, p *ssa.Phi) func(*ssa.BasicBlock, int) bool {
-	b := p.Block()
-	if b.Comment != "rangeindex.loop" {
+	// the scanning loop is identified through the range index the phi receives (the phi itself
+	// sits in the loop header when the loop runs to its end, behind the loop when it can be left
+	// early): header = block of the range-index increment
+	var header *ssa.BasicBlock
+	for _, e := range allPhiEdges(p) {
+		v := strip(e.val)
+		if !isRangeIndex(v) {
+			continue
+		}
+		var hb *ssa.BasicBlock
+		if b, ok := v.(*ssa.BinOp); ok {
+			hb = b.Block()
+		} else if q, ok := v.(*ssa.Phi); ok {
+			hb = q.Block()
+		}
+		if hb == nil || (header != nil && header != hb) {
+			return nil
+		}
+		header = hb
+	}
+	if header == nil {
 		return nil
 	}
-	iff, ok := b.Instrs[len(b.Instrs)-1].(*ssa.If)
+	iff, ok := header.Instrs[len(header.Instrs)-1].(*ssa.If)
 	if !ok {
 		return nil
 	}
-	_ = iff
 	// only when the range is over UserCreatedSnap (UpdateLUNMap); preload's running index lives in the outer loop over d.files
 	a := R.CondAtom(iff.Cond).String()
 	if !strings.Contains(a, ".UserCreatedSnap)") {
 		return nil
 	}
-	return func(bb *ssa.BasicBlock, k int) bool { return bb == b && k == 1 }
+	return func(bb *ssa.BasicBlock, k int) bool { return bb == header && k == 1 }
 }
 
 func ruleC06Snapstep(c *Ctx) {
@@ -949,6 +970,14 @@ func ruleC06Snapstep(c *Ctx) {
 		}
 		if len(st) == 1 && flag != "" {
 			c.Guard(rule, fn, st, "SnapIndx", nil, atom("member is user created", flag))
+			// the value is the slot the member was just appended to: files[0] is nil, the k-th member
+			// opened (k = 0, 1, ...) lands in slot k+1 = len(files)-1 after the append
+			v := R.V(st[0].(*ssa.Store).Val)
+			if v == "(+* +1)" || v == "(+len($0.volume.files) -1)" {
+				c.OK(rule, FnName(fn)+" | SnapIndx is the member's own slot", c.P.InstrPos(st[0]), "SnapIndx = "+v, true)
+			} else {
+				c.Bad(rule, FnName(fn)+" | SnapIndx is the member's own slot", c.P.InstrPos(st[0]), "SnapIndx receives "+v+", not the slot of the user-created member just appended (k+1 = len(files)-1): the punching fence is off by one after every open", nil)
+			}
 		} else {
 			c.Bad(rule, FnName(fn)+" | SnapIndx", "", "openLiveChain must set SnapIndx under the member's UserCreated flag", nil)
 		}
